@@ -56,7 +56,7 @@ def csvq(s, sep=","):
 def make_doc(r):
     """Returns (flags, text bytes, format name)."""
     fmt = r.choice(["csv", "csv", "csvlite", "tsv", "json", "json", "jsonl", "dkvp", "nidx", "xtab", "pprint", "pprint_barred", "markdown", "usv", "asv",
-                    "yaml", "recutils", "dcf", "csv_opts", "dkvp_opts", "nidx_opts", "dkvpx", "dkvpx", "pprint_barred", "tsv", "csvlite"])
+                    "yaml", "recutils", "dcf", "csv_opts", "dkvp_opts", "nidx_opts", "dkvpx", "dkvpx", "pprint_barred", "tsv", "csvlite", "pprint_fixed", "pprint_fixed"])
     n = r.choice([1, 2, 3, 6, 15])
     safe = fmt not in ("csv", "json", "jsonl", "csv_opts", "yaml", "dkvpx", "tsv")
     recs = records(r, n, safe, sparse=fmt in ("dkvp", "dkvp_opts", "json", "jsonl", "xtab", "yaml", "dkvpx", "recutils", "dcf") and r.chance(0.3))
@@ -99,7 +99,7 @@ def make_doc(r):
         if r.chance(0.3):
             text = text[:-1]
     elif fmt == "tsv":
-        flags = ["--itsv"]
+        flags = ["--itsv"] + r.choice([[], [], [], ["--implicit-tsv-header"], ["--allow-ragged-csv-input"], ["--implicit-tsv-header", "--allow-ragged-csv-input"]])
         raw_bs = r.chance(0.3)  # backslashes left as they are: a lone backslash is data in TSV
         enc = lambda s: (s if raw_bs else s.replace("\\", "\\\\")).replace("\t", "\\t").replace("\n", "\\n")
         text = "\t".join(k for k, _ in recs[0]) + "\n" + "".join("\t".join(enc(v) for _, v in rec) + "\n" for rec in recs)
@@ -162,6 +162,14 @@ def make_doc(r):
             # XTAB's line separator is the IFS: a multi-character one
             flags += ["--ifs", ";;"]
             text = text.replace("\n", ";;")
+    elif fmt == "pprint_fixed":
+        # fixed-width columns, located by the header line or given as widths
+        hdr = [k for k, _ in recs[0]]
+        rows = [hdr] + [[v for _, v in rec] for rec in recs]
+        w = [max(len(row[i]) for row in rows if i < len(row)) + r.choice([1, 2, 4]) for i in range(len(hdr))]
+        text = "".join("".join((row[i] if i < len(row) else "").ljust(w[i]) for i in range(len(hdr))).rstrip() + "\n" for row in rows)
+        flags = r.choice([["--ipprint", "--fw"], ["--ipprint", "--fixed", "left-align"], ["--ipprint", "--fixed", "right-align"],
+                          ["--ipprint", "--fixed", "widths:" + ",".join(str(x) for x in w)], ["--ipprint", "--fixed", "widths:" + ",".join(str(x) for x in w[:-1])]])
     elif fmt in ("pprint", "pprint_barred"):
         hdr = [k for k, _ in recs[0]]
         rows = [hdr] + [[v or "-" for _, v in rec] for rec in recs]
@@ -213,7 +221,11 @@ SPECIAL = [b"\"", b",", b"\t", b"\r", b"\n", b"\x00", b"\xff", b"\xef\xbb\xbf", 
            b"\"\"", b"\n\n", b"\r\n", b";", b"+", b"'"]
 
 
-def mutate(r, data):
+FMT_SEP = {"csv": b",", "csvlite": b",", "csv_opts": b",", "tsv": b"\t", "dkvp": b",", "nidx": b" ", "pprint": b" ", "pprint_fixed": b" ", "xtab": b" ",
+           "usv": "\u241f".encode(), "asv": b"\x1f", "markdown": b"|", "pprint_barred": b"|", "dkvpx": b","}
+
+
+def mutate(r, data, fmt=None):
     kind = r.choice(["truncate", "flip", "overwrite", "insert", "delete", "duplicate", "overwrite", "insert", "sepline", "mbline"])
     if not data:
         return data + r.choice(SPECIAL), "insert@0"
@@ -228,7 +240,8 @@ def mutate(r, data):
         return data[:start] + mb + data[end:], "mbline@%d+%d" % (start, len(mb))
     if kind == "sepline":
         # a line made of field separators only, with fewer, as many or more fields than its neighbours
-        line = r.choice([b",", b"\t", b" ", b";", b"|", b"=", b":"]) * r.choice([1, 2, 3, 4, 5, 8, 13])
+        sep = FMT_SEP[fmt] if fmt in FMT_SEP and r.chance(0.8) else r.choice([b",", b"\t", b" ", b";", b"|", b"=", b":"])
+        line = sep * r.choice([1, 2, 3, 4, 5, 8, 13])
         pos = data.find(b"\n", k)
         pos = len(data) if pos < 0 else pos + 1
         return data[:pos] + line + r.choice([b"\n", b"\n", b"\r\n", b""]) + data[pos:], "sepline@%d %r" % (pos, line)
@@ -312,7 +325,7 @@ def build_case(r, tier):
     nm = r.choice([0, 1, 1, 1, 2, 2, 4])
     orig = data
     for _ in range(nm):
-        data, what = mutate(r, data)
+        data, what = mutate(r, data, fmt)
         muts.append(what)
     big = False
     if fmt in ("json", "jsonl", "yaml") and r.chance(0.06):
